@@ -69,7 +69,9 @@ def product_units(chk, progs, pairs, tag, bfs_depth=6, max_confs=40, timeout=60,
             o = dict(opts or {}); o['defines'] = list(o.get('defines', [])) + ['VF_NORMALIZE_IDS 1']
             parts = []
             for k, (cfg, prog) in enumerate(zip((ca, cb), progs2)):
-                parts.append(('_' + 'ab'[k], emit.emit_cpp(prog, o), ['-DVF_BE=%d' % cfg[0]] + list(cfg[2] if len(cfg) > 2 else []), 'ab'[k] + '_'))
+                o2 = dict(o)
+                if len(cfg) > 1 and cfg[1] in ('basic', 'functor'): o2['front'] = cfg[1]
+                parts.append(('_' + 'ab'[k], emit.emit_cpp(prog, o2), ['-DVF_BE=%d' % cfg[0]] + list(cfg[2] if len(cfg) > 2 else []), 'ab'[k] + '_'))
             h, index = emit.emit_product_harness(base, confs, steps, tag)
             name = '%s_%s%s_%s_vs_%s' % (tag, pname, '_nosmint' if nosm else '', cfg_name(ca), cfg_name(cb))
             u = runner.Unit(name, 'P', None, h, index, parts=parts, rt_files=[runner.VERIF + '/harness/vf_product.c'])
@@ -334,6 +336,18 @@ def C12(tier, seed):
     return chk
 
 
+def C14(tier, seed):
+    chk = Check('C14', tier, seed)
+    # (1) the same machines written with functor rows (Row / Internal) and with basic rows (row, a_row, g_row, _row, irow family):
+    #     product harness, same back-end
+    pairs = [((0, 'functor'), (0, 'basic')), ((3, 'functor'), (3, 'basic'))] + ([((2, 'functor'), (2, 'basic'))] if tier == 'thorough' else [])
+    product_units(chk, ['F1', 'R2', 'H2'] if tier == 'thorough' else ['F1', 'H2'], pairs, 'C14')
+    # (2) guard expressions And_ / Or_ / Not_ (nesting = parentheses, C++ short circuit) and ActionSequence_ against the reference
+    oracle_units(chk, ['G1'], [0, 2, 3], 'C14', proj=STD, bfs_depth=4)
+    chk.assumptions.append('C14: the eUML and PlantUML front-ends and the PlantUML tokenizer are NOT covered (DESIGN 9: no verdict for the tokenizer kernel within 900 s / 14 GB even for a four-character line)')
+    return chk
+
+
 BP_TYPES = {0: 'Triv<1> (5 bytes)', 1: 'Triv<44>', 2: 'Triv<52> (56 bytes: fills the inline buffer)', 3: 'Triv<53> (60 bytes: heap)',
             4: 'TrivA<8,16> (alignment 16: heap)', 5: 'TrivA<40,64> (alignment 64: heap)', 6: 'Triv<196> (200 bytes: heap)',
             7: 'NonTriv inline (user copy/move/dtor, self pointer)', 8: 'NonTriv 100 bytes (heap)', 9: 'ThrowMove (move not noexcept: heap)'}
@@ -366,4 +380,4 @@ def C20(tier, seed):
     return chk
 
 
-PROPS = {f.__name__: f for f in (C01, C02, C03, C04, C05, C12, C15, C16, C18, C19, C06, C07, C08, C09, C10, C11, C13, C17, C20)}
+PROPS = {f.__name__: f for f in (C01, C02, C03, C04, C05, C12, C14, C15, C16, C18, C19, C06, C07, C08, C09, C10, C11, C13, C17, C20)}
